@@ -31,9 +31,10 @@ COMPONENTS["transparency"] = {
     "args": {"quick": ["-mode", "transparency"], "thorough": ["-mode", "transparency"]},
     "timeout": {"quick": 240, "thorough": 1200},
     "monitors_only": True,
-    "what": ("two real systems through the re-chunking proxy: an actor on A watches and kills (poison and non-poison) freshly spawned actors on B; "
-             "monitors: the target sees exactly one OnKill naming the remote killer with its reason and poison flag; two remote watchers and one local "
-             "watcher each receive exactly one OnKilled naming the target; a Tell after the kill no longer reaches the actor"),
+    "what": ("three real systems, each behind its own re-chunking proxy: remote Kill (poison and not) with watchers that have THE SAME PATH on A, on C and on B "
+             "itself (every watcher exactly one OnKilled naming the target, the target exactly one OnKill naming the remote killer, reason and poison flag); "
+             "Unwatch by one same-path watcher must not affect the others; remote Ping/Pong; remote Ask/Reply; PipeTo with a remote and a local forwarder for "
+             "success and failure results; a Tell after the kill no longer reaches the actor"),
 }
 
 _M5 = ("M5: TCP is a reliable FIFO byte stream that may split/coalesce arbitrarily and may be cut after any byte; conn.Write delivers all its bytes or a "
@@ -45,7 +46,9 @@ PROPERTIES = {
         "rule": ("rounds of concurrent sender actors (1..8 per direction, bursts up to 2000, payloads 0..1 MiB quick / just under 4 MiB thorough, every k-th "
                  "message an Ask answered by Reply) in both directions, each round on a fresh connection under one chunking mode; one case = one "
                  "connection's byte stream (as chunked by the proxy, up to 160 KiB) with everything the receiving system observed; larger streams are "
-                 "judged by the monitors only. non-trivial = more than one frame and more than one chunk; distinct = distinct byte streams/chunkings"),
+                 "judged by the monitors only (per-sender exactly-once/order/checksum at the receiver AND a wire check: the sender's recorded byte stream must "
+                 "be a sequence of whole frames, every sent message once, per-sender order). Includes rounds of 6-8 concurrent senders to two target actors with "
+                 "payloads mixed from 0 B .. 1 MiB (60/70/200 KiB: frames above 64 KiB) through the proxy and over a direct link. non-trivial = more than one frame and more than one chunk; distinct = distinct byte streams/chunkings"),
         "modelled_not_verified": [
             _M5,
             "codec round trip dec (enc m) = Some m is a hypothesis of C11_exactly_once_in_order (Section hypothesis codec_roundtrip; the envelope layout "
@@ -76,7 +79,8 @@ PROPERTIES = {
 PROPERTIES["C15"] = {
     "components": ["transparency"],
     "coq_files": ["Properties/C15_remote.v"],
-    "rule": ("remote Kill / Watch rounds between two real systems (12 quick / 120 thorough; poison and non-poison; pass, 1-byte, straddling, random chunking); "
+    "rule": ("remote Kill / Watch / Unwatch / Ping / PipeTo rounds between three real systems (12 quick / 120 thorough; poison and non-poison; same-path watchers on "
+             "different systems; pass, 1-byte, straddling, random chunking); "
              "no model cases: implementation monitors only (the wire-level theorem is C11's, instantiated for envelopes)"),
     "modelled_not_verified": [
         "payload codecs of OnKill / OnKilled / Watch (including the (address, path) encoding of their ActorRef fields) are assumed here: C12's round-trip theorems",
